@@ -10,7 +10,7 @@ def kvs(r): return dict(x.split('=', 1) for x in r.split(' ')[1:])
 
 
 def payload(r, sizes=None):
-    n = r.choice(sizes or [0, 1, 2, 3, 7, 8, 9, 31, 32, 33, 255, 256, 1471, 1472, 1473])
+    n = r.choice(sizes or [0, 0, 1, 2, 3, 7, 8, 9, 31, 32, 33, 255, 256, 1471, 1472, 1473])
     k = r.below(5)
     if k == 0: b = bytes(n)
     elif k == 1: b = b'\xff' * n
@@ -84,7 +84,14 @@ class Scen:
             elif k == 7: self.emit('%s.client_reset()' % f if r.chance(1, 2) else '%s.server_reset()' % f, None, wrap, dyn=lambda s: [E(c2s if 'client' in s else s2c)])
             elif k == 8: self.emit('%s.client_close()' % f, [E(c2s), E(s2c), E(c2s)], wrap)
             else: self.emit('%s.server_close()' % f, [E(s2c), E(c2s), E(s2c)], wrap)
+    def drop_empty(self, stmt):
+        """an empty payload may also be given by passing no payload argument at all"""
+        if '.echo' in stmt or not self.r.chance(1, 2): return stmt
+        if stmt.endswith(', "")'): return stmt[:-5] + ')'
+        if stmt.endswith('("")'): return stmt[:-3] + ')'
+        return stmt
     def emit(self, stmt, exps, wrap=None, dyn=None):
+        stmt = self.drop_empty(stmt)
         if exps is None: exps = dyn(stmt)
         if wrap: stmt, exps = wrap(stmt, exps)
         self.stmts.append(stmt + ';'); self.exp += exps
@@ -146,7 +153,7 @@ class Scen:
             if r.chance(2, 3) or k in ('off', 'id'):
                 v = o[k]; args.append('%s: %s' % (nm, ('true' if v else 'false') if isinstance(v, bool) else v))
             else: o[k] = dict(id=0, evil=False, df=False, mf=False, ttl=64, off=0, proto=17)[k]
-        args.append(lit(payload(r)))
+        args.append(lit(b'' if r.chance(1, 3) else payload(r)))     # header-only datagrams are common in scripts
         if self.raw: return   # ipv4::datagram has no raw option
         self.emit('ipv4::datagram(%s)' % ', '.join(args), [dict(src=s, dst=d, l4=None, eth='ip', **o)])
     def frag(self, big=None):
@@ -158,7 +165,7 @@ class Scen:
         else:
             b = payload(r, [0, 1, 8, 9, 24, 100, 1480]); pexpr = lit(b)
         self.n += 1; f = 'g%d' % self.n
-        self.decl.append('let %s = ipv4::frag(%s, %s, id: %d, evil: %s, df: %s, ttl: %d, proto: %d, %s);' % (f, ip(s), ip(d), o['id'], str(o['evil']).lower(), str(o['df']).lower(), o['ttl'], o['proto'], pexpr))
+        self.decl.append(self.drop_empty('let %s = ipv4::frag(%s, %s, id: %d, evil: %s, df: %s, ttl: %d, proto: %d, %s)' % (f, ip(s), ip(d), o['id'], str(o['evil']).lower(), str(o['df']).lower(), o['ttl'], o['proto'], pexpr)) + ';')
         n = len(b)
         for j in range(4 if big is not None else 1 + r.below(3)):
             k = r.below(3) if n < 8000 else r.below(2)
